@@ -76,7 +76,7 @@ def parse_case(line):
         k, v = tok.split('=', 1)
         if k in ('fp0', 'fp1', 'sf0', 'sf1') or k.startswith('tx'):
             cfg[k] = [int(x) for x in v.split(',') if x]
-        elif k in ('conf', 'pconf'):
+        elif k in ('conf', 'pconf', 'prod'):
             cfg[k] = v
         else:
             cfg[k] = int(v)
